@@ -499,6 +499,14 @@ func harnessIntrinsic(fn *ssa.Function) intrinsicFn {
 			in.nobj++
 			return &ChanV{id: in.nobj, fresh: a[0].(string), once: true}
 		}
+	case "vUF1":
+		return func(in *Interp, fn *ssa.Function, a []Value) Value {
+			return in.tb.UF("h_"+a[0].(string), in.term(a[1], "vUF1"))
+		}
+	case "vUF2":
+		return func(in *Interp, fn *ssa.Function, a []Value) Value {
+			return in.tb.UF("h_"+a[0].(string), in.term(a[1], "vUF2"), in.term(a[2], "vUF2"))
+		}
 	case "vNondetCount":
 		return func(in *Interp, fn *ssa.Function, a []Value) Value {
 			return in.tb.Int(int64(in.ndSrc))
